@@ -258,10 +258,10 @@ fn step(d: &mut Dec) -> Step {
         29 => Op::Stale { kind: d.u8(), which: d.u16(), method: 0 },
         30 => Op::Reenter { d: d.u16(), lfn: d.bool(), method: 0, at: d.u8() },
         _ => {
-            if d.u8() % 4 == 0 {
-                Op::Remount
-            } else {
-                Op::CheckAll
+            match d.u8() % 8 {
+                0 | 1 => Op::Remount,
+                2 => Op::LongHistory { which: d.u16(), back: d.u8() % 4 },
+                _ => Op::CheckAll,
             }
         }
     };
@@ -370,7 +370,15 @@ pub fn decode_dir(data: &[u8]) -> DirCase {
         (0..n)
             .map(|_| {
                 let name = name11(NAME_POOL[d.u8() as usize % NAME_POOL.len()]);
-                match d.u8() % 12 {
+                match d.u8() % 14 {
+                    12 => {
+                        if d.u8() % 4 == 0 {
+                            Item::End
+                        } else {
+                            Item::Deleted { name, rest: [d.u8(); 20] }
+                        }
+                    }
+                    13 => Item::WildDir { name, cluster: d.pick(&[1u32, 0x0FFF_FFF0, 0xFFFF_FFF0, 0xFFF7, 0xFFFF, 0x4000_0000, 350_000, 0x0001_0003]) ^ (d.u8() as u32 % 4) },
                     0 | 1 | 2 => Item::Short { name, attr: d.pick(&[0x20u8, 0, 0x21, 0x26]), size: d.u16() as u32 % 3000, seed: d.u8() as u32, dir: d.u8() % 5 == 0 },
                     3 => Item::Deleted { name, rest: [d.u8(); 20] },
                     4 | 5 => Item::LfnGood { units: units(d), name, size: d.u8() as u32, seed: 1 },
